@@ -12,6 +12,8 @@ import (
 // Ctx carries the loaded program plus the derived call graph and entry points.
 type Ctx struct {
 	Repo, Verif, Tier string
+	tables            map[ssa.CallInstruction]*tableInfo
+	constTables       map[*ssa.Global]*[]tableEntry
 	maxDepthSeen      int
 	c01Clean          *bool
 	P                 *Program
@@ -123,8 +125,19 @@ func (cx *Ctx) takeAddr(fn *ssa.Function) {
 }
 
 func sigKey(s *types.Signature) string {
-	// signature without receiver
-	return types.TypeString(types.NewSignatureType(nil, nil, nil, s.Params(), s.Results(), s.Variadic()), nil)
+	// signature without receiver and without parameter names (func(k Keeper) and
+	// func(Keeper) are the same function type)
+	anon := func(t *types.Tuple) *types.Tuple {
+		if t == nil {
+			return nil
+		}
+		vs := make([]*types.Var, t.Len())
+		for i := 0; i < t.Len(); i++ {
+			vs[i] = types.NewVar(0, nil, "", t.At(i).Type())
+		}
+		return types.NewTuple(vs...)
+	}
+	return types.TypeString(types.NewSignatureType(nil, nil, nil, anon(s.Params()), anon(s.Results()), s.Variadic()), nil)
 }
 
 // findDoubles: the in-memory stand-ins for external keepers in
